@@ -82,7 +82,7 @@ structure EverInv (s : State) : Prop where
   ever : ∀ k, closeClosed (s.closes k) = true → s.everClosed = true
   everEx : s.everClosed = true → ∃ k, closeClosed (s.closes k) = true
 
-theorem everinv_initCfg (nl sg : Bool) : EverInv (initCfg nl sg) := by
+theorem everinv_initCfg (nl : Bool) (sg : List Sig) : EverInv (initCfg nl sg) := by
   constructor <;> simp [initCfg, closeClosed]
 
 theorem everinv_step {s s' : State} (a : Action) (hi : EverInv s) (h : step s a = some s') : EverInv s' := by
@@ -122,7 +122,7 @@ theorem everinv_reachable {s : State} (h : Reachable s) : EverInv s := by
 structure TunInv (s : State) : Prop where
   loc : ∀ c, TunLocal s.everClosed (s.conns c)
 
-theorem tuninv_initCfg (nl sg : Bool) : TunInv (initCfg nl sg) := ⟨fun _ => TunLocal.default _⟩
+theorem tuninv_initCfg (nl : Bool) (sg : List Sig) : TunInv (initCfg nl sg) := ⟨fun _ => TunLocal.default _⟩
 
 theorem tuninv_step {s s' : State} (a : Action) (he : EverInv s) (hi : TunInv s) (h : step s a = some s') :
     TunInv s' := by
